@@ -37,9 +37,22 @@ def replay(spec):
             pd["d"] = sp["d"]
     M = Model(species=SPECIES, reactions=[(sp["reactants"], sp["products"], ptype, pd)], parameters=params,
               initial_condition_dict={"A": 3, "B": 4, "C": 0})
-    doc, sm = M.generate_sbml_model(stochastic_model=stochastic)
-    law = sm.getReaction(0).getKineticLaw().getMath()
     import libsbml
+    if spec.get("via") == "file":
+        # the written file, not the in-memory document
+        import os
+        import tempfile
+        fd, path = tempfile.mkstemp(suffix=".xml")
+        os.close(fd)
+        try:
+            M.write_sbml_model(path, stochastic_model=stochastic)
+            doc = libsbml.readSBMLFromFile(path)
+        finally:
+            os.unlink(path)
+        sm = doc.getModel()
+    else:
+        doc, sm = M.generate_sbml_model(stochastic_model=stochastic)
+    law = sm.getReaction(0).getKineticLaw().getMath()
     text = libsbml.formulaToL3String(law)
     env = {}
     v = unfrac(spec.get("values", {}))
